@@ -33,14 +33,16 @@ var _ backoff.BackOff
 //@ props C05 C16
 //@ assigns nothing
 //@ invariant 0 [frame.joined-window] len(cur(joined)) <= len(joined) && window(cur(joined), joined, len(joined)-len(cur(joined)), len(joined)) // what is still to parse is a suffix of the input
-//@ invariant 1 [frame.integ-new] isnew(integrityAlgorithms)
+//@ invariant 1 [frame.integ-new] isnew(integrityAlgorithms) && otherarray(integrityAlgorithms, cur(joined))
 //@ invariant 1 [C16.rec-start] len(cur(joined)) >= 3+3*int(cur(joined)[0]&1) && cur(joined)[0]>>1 == 0x60
 //@ invariant 1 [C16.rec-id] record.CipherSuiteID == ipmi.CipherSuiteID(cur(joined)[1])
 //@ invariant 1 [C16.rec-auth] uint8(record.AuthenticationAlgorithm) == cur(joined)[2+3*int(cur(joined)[0]&1)] && cur(joined)[2+3*int(cur(joined)[0]&1)]>>6 == 0
 //@ invariant 1 [C16.rec-oem] uint32(record.Enterprise) == ite(cur(joined)[0]&1 == 1, uint32(cur(joined)[2])+uint32(cur(joined)[3])<<8+uint32(cur(joined)[4])<<16, uint32(0))
 //@ invariant 1 [C16.integ-offset] offset == 3+3*int(cur(joined)[0]&1)+len(integrityAlgorithms) && offset <= len(cur(joined))
-//@ invariant 1 [C16.integ-list] forall(qj, 0, len(integrityAlgorithms), cur(joined)[offset-len(integrityAlgorithms)+qj]>>6 == 1 && uint8(integrityAlgorithms[qj]) == cur(joined)[offset-len(integrityAlgorithms)+qj]&0x3f)
-//@ invariant 2 [frame.conf-new] isnew(confidentialityAlgorithms)
+//@ invariant 1 [C16.integ-tags] forall(qj, 0, len(integrityAlgorithms), cur(joined)[offset-len(integrityAlgorithms)+qj]>>6 == 1)
+//@ invariant 1 [C16.integ-last] len(integrityAlgorithms) > 0 ==> uint8(integrityAlgorithms[len(integrityAlgorithms)-1]) == cur(joined)[offset-1]&0x3f && cur(joined)[offset-1]>>6 == 1
+//@ invariant 1 [C16.integ-list~] forall(qj, 0, len(integrityAlgorithms), uint8(integrityAlgorithms[qj]) == cur(joined)[offset-len(integrityAlgorithms)+qj]&0x3f)
+//@ invariant 2 [frame.conf-new] isnew(confidentialityAlgorithms) && otherarray(confidentialityAlgorithms, cur(joined))
 //@ invariant 2 [frame.integ-kept] isnew(integrityAlgorithms) && len(integrityAlgorithms) >= 1 && otherarray(integrityAlgorithms, confidentialityAlgorithms)
 //@ invariant 2 [C16.rec-start] len(cur(joined)) >= 3+3*int(cur(joined)[0]&1) && cur(joined)[0]>>1 == 0x60
 //@ invariant 2 [C16.rec-id] record.CipherSuiteID == ipmi.CipherSuiteID(cur(joined)[1])
@@ -50,7 +52,9 @@ var _ backoff.BackOff
 //@ invariant 2 [C16.c-integ-none] offset-len(confidentialityAlgorithms) == 3+3*int(cur(joined)[0]&1) ==> len(integrityAlgorithms) == 1 && integrityAlgorithms[0] == ipmi.IntegrityAlgorithmNone
 //@ invariant 2 [C16.c-integ-len] offset-len(confidentialityAlgorithms) > 3+3*int(cur(joined)[0]&1) ==> len(integrityAlgorithms) == offset-len(confidentialityAlgorithms)-(3+3*int(cur(joined)[0]&1))
 //@ invariant 2 [C16.c-integ-maximal] offset-len(confidentialityAlgorithms) < len(cur(joined)) ==> cur(joined)[offset-len(confidentialityAlgorithms)]>>6 != 1
-//@ invariant 2 [C16.conf-list] forall(qj, 0, len(confidentialityAlgorithms), cur(joined)[offset-len(confidentialityAlgorithms)+qj]>>6 == 2 && uint8(confidentialityAlgorithms[qj]) == cur(joined)[offset-len(confidentialityAlgorithms)+qj]&0x3f)
+//@ invariant 2 [C16.conf-tags] forall(qj, 0, len(confidentialityAlgorithms), cur(joined)[offset-len(confidentialityAlgorithms)+qj]>>6 == 2)
+//@ invariant 2 [C16.conf-last] len(confidentialityAlgorithms) > 0 ==> uint8(confidentialityAlgorithms[len(confidentialityAlgorithms)-1]) == cur(joined)[offset-1]&0x3f && cur(joined)[offset-1]>>6 == 2
+//@ invariant 2 [C16.conf-list~] forall(qj, 0, len(confidentialityAlgorithms), uint8(confidentialityAlgorithms[qj]) == cur(joined)[offset-len(confidentialityAlgorithms)+qj]&0x3f)
 // (the entry just appended is: suite, authentication, the current integrity algorithm, the j-th confidentiality algorithm)
 //@ invariant 4 [C16.expand-last] rangeindex >= 0 ==> records[len(records)-1].ConfidentialityAlgorithm == confidentialityAlgorithms[rangeindex] && records[len(records)-1].IntegrityAlgorithm == record.IntegrityAlgorithm &&
 //@    records[len(records)-1].CipherSuiteID == record.CipherSuiteID && records[len(records)-1].AuthenticationAlgorithm == record.AuthenticationAlgorithm && records[len(records)-1].Enterprise == record.Enterprise
@@ -69,7 +73,7 @@ var _ backoff.BackOff
 //@ props C03 C04 C05 C09 C10 C11 C13 C17 C18
 //@ at Transport).Send assert [C13.attempt-ctx] ctxChildOf(arg[context.Context](1), ctx)
 //@ requires [sess.valid] !isnil(s) && !isnil(s.v2ConnectionShared) && !isnil(s.buffer) && !isnil(s.transport) && !isnil(c) && !isnil(s.decode) && !isnil(ctx) && !isnil(s.confidentialityLayer)
-//@ requires [sess.term] isnil(terminalErr)
+//@ requires [sess.term] isnil(captured[error]())
 //@ requires [C09.bound] s.AuthenticatedSequenceNumbers.Inbound < 0xfffffffe
 //@ at SerializeLayers assert [C09.seq] s.v2SessionLayer.Sequence == old(s.AuthenticatedSequenceNumbers.Inbound)+1 && sends() == old(sends())
 //@ at SerializeLayers assert [C03+C17.wrapper] s.v2SessionLayer.Encrypted && s.v2SessionLayer.Authenticated && s.v2SessionLayer.ID == s.RemoteID &&
@@ -79,18 +83,18 @@ var _ backoff.BackOff
 //@ at SerializeLayers assert [C03+C10+C17.rmcp] s.rmcpLayer.Version == 6 && s.rmcpLayer.Sequence == 0xff && s.rmcpLayer.Class == 7 && !s.rmcpLayer.Ack
 //@ at Transport).Send assert [C09.send-seq] s.AuthenticatedSequenceNumbers.Inbound == old(s.AuthenticatedSequenceNumbers.Inbound)+1 && s.v2SessionLayer.Sequence == s.AuthenticatedSequenceNumbers.Inbound
 //@ ensures [C09.step] s.AuthenticatedSequenceNumbers.Inbound == old(s.AuthenticatedSequenceNumbers.Inbound)+uint32(sends()-old(sends())) && sends()-old(sends()) <= 1
-//@ ensures [C10.terminal] !isnil(terminalErr) ==> result == nil
-//@ ensures [C10.send-terminal] sends() > old(sends()) && lastSendFailed() ==> !isnil(terminalErr) // in a session a lost exchange ends the command: no retransmission
-//@ ensures [C10.sent] isnil(terminalErr) ==> sends() == old(sends())+1
-//@ ensures [C10+C11.stray-retried] !isnil(terminalErr) ==> sends() == old(sends()) || lastSendFailed() // a reply that arrived - stray, duplicated, for another command - never ends the command: the attempt is retried
-//@ ensures [C10.final] result == nil && isnil(terminalErr) ==> !s.messageLayer.CompletionCode.IsTemporary()
+//@ ensures [C10.terminal] !isnil(captured[error]()) ==> result == nil
+//@ ensures [C10.send-terminal] sends() > old(sends()) && lastSendFailed() ==> !isnil(captured[error]()) // in a session a lost exchange ends the command: no retransmission
+//@ ensures [C10.sent] isnil(captured[error]()) ==> sends() == old(sends())+1
+//@ ensures [C10+C11.stray-retried] !isnil(captured[error]()) ==> sends() == old(sends()) || lastSendFailed() // a reply that arrived - stray, duplicated, for another command - never ends the command: the attempt is retried
+//@ ensures [C10.final] result == nil && isnil(captured[error]()) ==> !s.messageLayer.CompletionCode.IsTemporary()
 //@ at return assert [C10.retry-only-temporary] arg[error](0) != nil ==> code == 0xc0 || code == 0xc3 // once a valid response is there, only the two temporary completion codes ask for a retransmission: any other code is final
-//@ ensures [C10.temporary] isnil(terminalErr) && sends() > old(sends()) && result == nil ==> s.messageLayer.CompletionCode != 0xc0 && s.messageLayer.CompletionCode != 0xc3
-//@ ensures [C04.accept] result == nil && isnil(terminalErr) && !isnil(s.integrityAlgorithm) ==> s.v2SessionLayer.Authenticated && s.v2SessionLayer.ID == s.LocalID
-//@ ensures [C04.session] result == nil && isnil(terminalErr) ==> s.v2SessionLayer.ID == s.LocalID
-//@ ensures [C11.match] result == nil && isnil(terminalErr) ==> s.messageLayer.Function == c.Operation().Function+1 && s.messageLayer.Command == c.Operation().Command &&
+//@ ensures [C10.temporary] isnil(captured[error]()) && sends() > old(sends()) && result == nil ==> s.messageLayer.CompletionCode != 0xc0 && s.messageLayer.CompletionCode != 0xc3
+//@ ensures [C04.accept] result == nil && isnil(captured[error]()) && !isnil(s.integrityAlgorithm) ==> s.v2SessionLayer.Authenticated && s.v2SessionLayer.ID == s.LocalID
+//@ ensures [C04.session] result == nil && isnil(captured[error]()) ==> s.v2SessionLayer.ID == s.LocalID
+//@ ensures [C11.match] result == nil && isnil(captured[error]()) ==> s.messageLayer.Function == c.Operation().Function+1 && s.messageLayer.Command == c.Operation().Command &&
 //@    s.messageLayer.Body == c.Operation().Body && s.messageLayer.Enterprise == c.Operation().Enterprise
-//@ ensures [C18.retry] metric(commandRetries) == old(metric(commandRetries))+ite(old(firstAttempt), 0, 1)
+//@ ensures [C18.retry] metric(commandRetries) == old(metric(commandRetries))+ite(old(captured[bool]()), 0, 1)
 //@ ensures [keep.metrics] metricsOnly(commandRetries, commandResponses)
 //@ at CounterVec).WithLabelValues assert [C04+C11+C18.response-counted] sends() == old(sends())+1 && s.v2SessionLayer.ID == s.LocalID && s.messageLayer.Function == c.Operation().Function+1 && s.messageLayer.Command == c.Operation().Command &&
 //@    s.messageLayer.Body == c.Operation().Body && s.messageLayer.Enterprise == c.Operation().Enterprise // only a reply of this session to the command that was sent is counted as a response
@@ -109,7 +113,7 @@ var _ backoff.BackOff
 //@ at return assert [C10.retry-only-temporary] arg[error](0) != nil ==> code == 0xc0 || code == 0xc3 // once a valid response is there, only the two temporary completion codes ask for a retransmission: any other code is final
 //@ ensures [C11.match] result == nil ==> s.messageLayer.Function == c.Operation().Function+1 && s.messageLayer.Command == c.Operation().Command &&
 //@    s.messageLayer.Body == c.Operation().Body && s.messageLayer.Enterprise == c.Operation().Enterprise
-//@ ensures [C18.retry] metric(commandRetries) == old(metric(commandRetries))+ite(old(firstAttempt), 0, 1)
+//@ ensures [C18.retry] metric(commandRetries) == old(metric(commandRetries))+ite(old(captured[bool]()), 0, 1)
 //@ ensures [keep.metrics] metricsOnly(commandRetries, commandResponses)
 //@ at CounterVec).WithLabelValues assert [C11+C18.response-counted] sends() == old(sends())+1 && s.messageLayer.Function == c.Operation().Function+1 && s.messageLayer.Command == c.Operation().Command &&
 //@    s.messageLayer.Body == c.Operation().Body && s.messageLayer.Enterprise == c.Operation().Enterprise // only a reply to the command that was sent is counted as a response
@@ -313,8 +317,8 @@ func specKInput(st int, n uint8) int {
 //@ assigns hashstate(g.hash)
 //@ ensures [C01.k-nil] isnil(g.hash) ==> isnil(result)
 //@ ensures [C01.k-input] !isnil(g.hash) ==> hIsDigest(result, old(specKInput(hState(g.hash), uint8(n)))) && len(result) == hSizeOf(g.hash) && hState(g.hash) == hInit(g.hash)
-//@ invariant 0 [k.fill] 0 <= i && i <= 20 && len(constant) == 20 && forall(qk, 0, i, constant[qk] == uint8(n))
-//@ decreases 0 20 - i
+//@ invariant 0 [k.fill] 0 <= iter && iter <= 20 && len(constant) == 20 && forall(qk, 0, iter, constant[qk] == uint8(n))
+//@ decreases 0 20 - iter
 
 //@ func truncatedHash.Size
 //@ props C01
